@@ -526,11 +526,54 @@ def setter_contract(which):
 
     glob = {"QuaraScheduleItemError": ExcClass("QuaraScheduleItemError"), "QuaraScheduleOrderError": ExcClass("QuaraScheduleOrderError"),
             "State": ExcClass("State"), "Povm": ExcClass("Povm"), "Gate": ExcClass("Gate"), "MProcess": ExcClass("MProcess")}
-    return Contract(target, make_inputs, post, globals_=glob, prop="C20", scope="modular: _validate_schedules by contract", setter=True,
+    def native_search(key, canary=False):
+        """concrete replay of the setter on a real Experiment: accepted <=> every stored schedule index fits the NEW list"""
+        if canary:
+            return None
+        from qverif.core import native as N
+        cst = N.native_import("quara.objects.composite_system_typical")
+        c = cst.generate_composite_system("qubit", 1)
+        qt = N.native_import("quara.objects.qoperation_typical")
+        mk = {"state": lambda: qt.generate_qoperation("state", "z0", c), "povm": lambda: qt.generate_qoperation("povm", "z", c),
+              "gate": lambda: qt.generate_qoperation("gate", "x", c), "mprocess": lambda: qt.generate_qoperation("mprocess", "z-type1", c)}
+        Experiment = N.native_import("quara.qcircuit.experiment").Experiment
+        for idx in (1, 0):
+            for new_len in (0, 1, 2, 3):
+                mid = [] if kind in ("state", "povm") else [(kind, idx)]
+                sched = [[("state", idx if kind == "state" else 0)] + mid + [("povm", idx if kind == "povm" else 0)]]
+                lists = dict(states=[mk["state"]() for _ in range(2)], povms=[mk["povm"]() for _ in range(2)], gates=[mk["gate"]() for _ in range(2)],
+                             mprocesses=[mk["mprocess"]() for _ in range(2)])
+                try:
+                    exp = Experiment(schedules=sched, **lists)
+                except Exception as e:  # noqa
+                    continue
+                new = [mk[kind]() for _ in range(new_len)]
+                old = getattr(exp, which)
+                try:
+                    setattr(exp, which, new)
+                    outcome = ("return", None)
+                except Exception as e:  # noqa
+                    outcome = ("raise", type(e).__name__)
+                wf = idx < new_len
+                stored_new = getattr(exp, which) is new
+                bad = None
+                if (outcome[0] == "return") != wf:
+                    bad = "accepted-iff-schedules-valid-for-new-list"
+                elif outcome[0] == "return" and not stored_new:
+                    bad = "new-value-installed-on-acceptance"
+                elif outcome[0] == "raise" and getattr(exp, which) is not old:
+                    bad = "old-value-kept-on-rejection"
+                if bad is not None:
+                    return dict(args=dict(kind=kind, schedules=sched, old_len=2, new_len=new_len), outcome=outcome, clause=bad)
+        return None
+
+    con = Contract(target, make_inputs, post, globals_=glob, prop="C20", scope="modular: _validate_schedules by contract", setter=True,
                     clause_text={"accepted-iff-schedules-valid-for-new-list": "the setter succeeds <=> _validate_schedules accepts the stored schedules against the new list",
                                  "old-value-kept-on-rejection": "on rejection the stored list is unchanged",
                                  "new-value-installed-on-acceptance": "on acceptance the new list is stored",
                                  "new-list-routed-to-its-own-slot": "validation sees the new list in its own slot and the current lists in the other three"})
+    con.native_search = native_search
+    return con
 
 
 def _int_or(mode, name):
